@@ -226,15 +226,14 @@ KeyDep(o) == Stable(o) /\ \E a, b \in 1..Len(zimgs) : zimgs[a].before[o] # zimgs
 KeyDepSet == IF zimgs = <<>> THEN {} ELSE {o \in 1..Len(zimgs[1].before) : KeyDep(o)}
 ZEnd ==
     /\ IsEvent("zend")
-    /\ LET K == KeyDepSet
-           \* vacuity guard: an instance built from a non-empty key does hold key material
-           seen == (Rec[tpos].klen > 0) => (K # {})
-       IN IF Rec[tpos].zeroize
-          THEN /\ seen
-               /\ \A a \in 1..Len(zimgs) : \A o \in K : zimgs[a].after[o] = 0
-          ELSE \* control build without the feature: key material must survive (shows the probe sees it)
-               /\ seen
-               /\ (Rec[tpos].klen > 0) => \E a \in 1..Len(zimgs) : \E o \in K : zimgs[a].after[o] # 0
+    /\ LET K == KeyDepSet IN
+       IF Rec[tpos].zeroize
+       THEN \* every key-dependent offset reads zero after the drop.  (K may legitimately be empty: e.g. RC2 with a
+            \* 1-byte key and 8 effective bits expands to the same table for almost every key.)
+            \A a \in 1..Len(zimgs) : \A o \in K : zimgs[a].after[o] = 0
+       ELSE \* control build without the feature (vacuity guard): the probe must see key material, and it must survive
+            /\ (Rec[tpos].klen > 1) => (K # {})
+            /\ (Rec[tpos].klen > 1) => \E a \in 1..Len(zimgs) : \E o \in K : zimgs[a].after[o] # 0
     /\ zimgs' = <<>>
     /\ UNCHANGED <<inst, perm, lanes, seen1, names>>
 
